@@ -27,6 +27,9 @@ cargo test --offline "${DEMO[@]}" > $OUT/demo_without_patch.log 2>&1; WO=$?
 tail -3 $OUT/demo_without_patch.log
 git apply SEED/patch.diff
 echo "demo_with_patch_exit=$W demo_without_patch_exit=$WO"
+# the demonstration may have edited Cargo.toml (test registration, dev-dependencies): the check must see
+# the library change only
+git -C $WT checkout -- Cargo.toml 2>/dev/null
 # run the check against the worktree (patch applied) - /repo itself is not touched
 ( cd /repo && git apply --check $OUT/patch.diff ) || { echo "PATCH DOES NOT APPLY TO /repo"; exit 3; }
 cd /verif && VERIF_REPO=$WT ./check $PID --tier quick > $OUT/check_quick.log 2>&1; RC=$?
